@@ -132,6 +132,16 @@ func f6Build(tg []int, pat, adj, tail int, inFn bool) *prog.Prog {
 	for k, t := range tg {
 		names[k] = f6Targets[t]
 	}
-	p.Key = fmt.Sprintf("targets=%s rhs=%s adj=%+d tail=%s infunc=%v", strings.Join(names, ","), f6Pattern[pat], adj, f6Tail[tail], inFn)
+	// excess: what the expressions beyond the number of targets are (they must
+	// still be evaluated, §3.3.3)
+	excess := "none"
+	if len(rhs) > n {
+		excess = "pure"
+		switch f6Tail[tail] {
+		case "f0", "f1", "f2", "paren2":
+			excess = "call"
+		}
+	}
+	p.Key = fmt.Sprintf("targets=%s rhs=%s adj=%+d tail=%s infunc=%v excess=%s", strings.Join(names, ","), f6Pattern[pat], adj, f6Tail[tail], inFn, excess)
 	return p
 }
